@@ -4,12 +4,12 @@ package checks
 
 import (
 	"bytes"
-	"os"
-	"sort"
 	"context"
 	"fmt"
 	"io"
 	"net"
+	"os"
+	"sort"
 	"strings"
 	"sync"
 	"testing"
@@ -42,7 +42,11 @@ type C03Plan struct {
 	ChunkAB int       `json:"chunk_ab"`
 	ChunkBA int       `json:"chunk_ba"`
 	CutAtMs int       `json:"cut_at_ms"` // cut the first link of the primary path (0: never)
-	Shrink  []string  `json:"_shrink"`
+	// other dials from the same node to the same service while the stream is in use, each given up after
+	// AbandonUs (before or after its handshake completes)
+	AbandonAtMs []int    `json:"abandon_at_ms"`
+	AbandonUs   int      `json:"abandon_us"`
+	Shrink      []string `json:"_shrink"`
 }
 
 func genC03(seed uint64, tier string) any {
@@ -69,6 +73,12 @@ func genC03(seed uint64, tier string) any {
 		}
 	}
 	p.Via = simnet.Pick(r, []string{"direct", "direct", "connect", "bridge"})
+	if r.Bool(0.4) {
+		for k := r.Range(1, 3); k > 0; k-- {
+			p.AbandonAtMs = append(p.AbandonAtMs, r.Range(0, 3000))
+		}
+		p.AbandonUs = simnet.Pick(r, []int{100, 3000, 20000, 100000, 1000000})
+	}
 	sizes := []int{0, 1, 100, 1199, 1200, 1201, 16384, 65536, 100000, 300000}
 	if tier == "thorough" {
 		sizes = append(sizes, 1000000, 2000000)
@@ -224,12 +234,35 @@ func runC03(t *testing.T, planAny any, res *simnet.Result) {
 		wg.Add(1)
 		go func() {
 			defer wg.Done()
-			c, err := li.Accept()
-			if err != nil {
-				b.err = fmt.Errorf("accept: %w", err)
-				return
+			// the service accepts every connection; the stream under test announces itself with a marker byte, the
+			// short-lived other dials (if they get that far) with another
+			mainConn := make(chan *netceptor.Conn, 1)
+			go func() {
+				for {
+					c, err := li.Accept()
+					if err != nil {
+						return
+					}
+					go func(c *netceptor.Conn) {
+						first := make([]byte, 1)
+						if _, err := io.ReadFull(c, first); err != nil || first[0] != 'M' {
+							_ = c.Close()
+							return
+						}
+						select {
+						case mainConn <- c:
+						default:
+							_ = c.Close()
+						}
+					}(c.(*netceptor.Conn))
+				}
+			}()
+			select {
+			case c := <-mainConn:
+				pump(c, dataBA, p.ChunkBA, &b, "B", p.Via != "direct")
+			case <-time.After(600 * time.Second):
+				b.err = fmt.Errorf("accept: no connection arrived")
 			}
-			pump(c, dataBA, p.ChunkBA, &b, "B", p.Via != "direct")
 		}()
 		// establishing a connection over lossy links may fail (the property is about established streams): retry
 		dialRetry := func() (*netceptor.Conn, error) {
@@ -307,8 +340,24 @@ func runC03(t *testing.T, planAny any, res *simnet.Result) {
 				}
 				c = conn
 			}
-			pump(c, dataAB, p.ChunkAB, &a, "A", false)
+			pump(c, append([]byte{'M'}, dataAB...), p.ChunkAB, &a, "A", false)
 		}()
+		// other dials to the same service come and go; they must not disturb the stream
+		for _, at := range p.AbandonAtMs {
+			go func(at int) {
+				time.Sleep(time.Duration(at) * time.Millisecond)
+				ctx, cancel := context.WithTimeout(context.Background(), time.Duration(p.AbandonUs)*time.Microsecond)
+				conn, err := src.Net().DialContext(ctx, dst.ID, "strm", nil)
+				cancel()
+				if err == nil {
+					w.Count("probe_second_dial_completed", 1)
+					_, _ = conn.Write([]byte{'X'})
+					_ = conn.CloseConnection()
+				} else {
+					w.Count("fault_dial_abandoned", 1)
+				}
+			}(at)
+		}
 		// fault: cut the first link of the primary path while the alternative exists
 		if p.CutAtMs > 0 && len(links) > 0 {
 			go func() {
